@@ -251,4 +251,11 @@ def finding_class(req, impl, model, why):
         # the accumulated exponent plus the number of digits leaves the range of int
         if acc + len(m.group(2)) > 2147483647:
             return "exponent magnitude + digit count exceeds INT_MAX"
+    if m and impl.startswith("SAN:asan:stack-buffer-overflow:value.c:to_double"):
+        mant = m.group(2)
+        ip = mant.split(".")[0].lstrip("0")
+        sig = mant.replace(".", "").strip("0")
+        ex = int(m.group(3)) if m.group(3) else 0
+        if len(sig) > 2000 and len(ip) - 1 + ex > 280:
+            return "to_double bignum array overflow: > 2000 significant digits with most significant place above 280"
     return None
